@@ -94,10 +94,20 @@ void ts_range_array_get_changed_ranges(
       if (in_old_range != in_new_range) {
         ts_range_array_add(differences, current_position, next_new_position);
       }
-      if (in_old_range) old_index++;
-      if (in_new_range) new_index++;
-      in_old_range = !in_old_range;
-      in_new_range = !in_new_range;
+      // A list that is already exhausted has no range to enter: its next
+      // position is only the LENGTH_MAX sentinel.
+      if (in_old_range) {
+        old_index++;
+        in_old_range = false;
+      } else if (old_index < old_range_count) {
+        in_old_range = true;
+      }
+      if (in_new_range) {
+        new_index++;
+        in_new_range = false;
+      } else if (new_index < new_range_count) {
+        in_new_range = true;
+      }
       current_position = next_new_position;
     }
   }
